@@ -364,7 +364,9 @@ def _terms_included(want, got):
     rest = list(got)
     pending = []
     # a term that names nothing but anonymous locals (`var:bool`) cannot be recognised again after any rewrite: it claims nothing
-    want = [w for w in want if not all(a.startswith(('var', 'upvar:var')) for a in w.split('@')[0].split('&'))]
+    def anonymous(a):
+        return a.startswith(('var', 'upvar:var')) or (a.startswith('field:') and a[6:].isdigit())
+    want = [w for w in want if not all(anonymous(a) for a in w.split('@')[0].split('&'))]
     for w in want:
         if w in rest:
             rest.remove(w)
@@ -378,6 +380,21 @@ def _terms_included(want, got):
             if ga == wa and (not wp or not gp or _vocab(wp) != _vocab(gp)):
                 hit = g
                 break
+        if hit is None and wp.lstrip('~') == 'ne':
+            # `x != K` is implied by `x == J` for another constant J
+            wparts = wa.split('&')
+            wk = [a for a in wparts if a.startswith('const:')]
+            if len(wk) == 1:
+                wrest = sorted(a for a in wparts if a != wk[0])
+                for g in got:
+                    ga, _, gp = g.partition('@')
+                    gparts = ga.split('&')
+                    gk = [a for a in gparts if a.startswith('const:')]
+                    if gp.lstrip('~') == 'eq' and len(gk) == 1 and gk[0] != wk[0] and sorted(a for a in gparts if a != gk[0]) == wrest:
+                        hit = '__implied__'
+                        break
+            if hit == '__implied__':
+                continue
         if hit is None:
             return False
         rest.remove(hit)
@@ -414,6 +431,18 @@ def _merge_complementary(sites):
             for j in range(i + 1, len(sites)):
                 a, b = collections.Counter(sites[i]), collections.Counter(sites[j])
                 comp = None
+                # match arms: `x@A` and `x@B` with otherwise equal terms are one site under `x@A/B`
+                # (per-arm assignments replaced by one assignment of a `match` expression)
+                da, db = list((a - b).elements()), list((b - a).elements())
+                if len(da) == 1 and len(db) == 1:
+                    xa, _, pa = da[0].partition('@')
+                    xb, _, pb = db[0].partition('@')
+                    if xa == xb and pa and pb and _vocab(pa) == 'v' and _vocab(pb) == 'v':
+                        union = '/'.join(sorted(set(pa.split('/')) | set(pb.split('/'))))
+                        merged = sorted(list((a & b).elements()) + [xa + '@' + union])
+                        sites = [s2 for k, s2 in enumerate(sites) if k not in (i, j)] + [merged]
+                        changed = True
+                        break
                 for ta in a:
                     xa, _, pa = ta.partition('@')
                     if not pa:
